@@ -441,16 +441,26 @@ class KafkaCodec(object):
 
             elif codec == CODEC_GZIP:
                 gz = gzip_decode(value)
-                for offset, msg in KafkaCodec._decode_message_set_iter(gz):
-                    yield offset, msg
+                for inner_offset, msg in v1_inner(gz, offset):
+                    yield inner_offset, msg
 
             elif codec == CODEC_SNAPPY:
                 snp = snappy_decode(value)
-                for offset, msg in KafkaCodec._decode_message_set_iter(snp):
-                    yield offset, msg
+                for inner_offset, msg in v1_inner(snp, offset):
+                    yield inner_offset, msg
 
             else:
                 raise ProtocolError("Unsupported codec 0b{:b}".format(codec))
+
+        def v1_inner(message_set, wrapper_offset):
+            # Message format 1 numbers the messages inside a compressed wrapper
+            # relative to the first one, and the wrapper carries the absolute
+            # offset of the last one.
+            inner = list(KafkaCodec._decode_message_set_iter(message_set))
+            if inner:
+                base = wrapper_offset - inner[-1].offset
+                for inner_offset, msg in inner:
+                    yield base + inner_offset, msg
 
         if magic == 0:
             return v0(data, offset, cur)
